@@ -417,7 +417,15 @@ def coalesce_copies(tree: ast.Module) -> int:
             order = _ordered_names(fn)
             pos = {id(n): i for i, n in enumerate(order)}
             done = False
-            for idx, st in enumerate(fn.body):
+            all_lists = [fn.body]
+            for x in _walk_own(fn):
+                for fld in ("body", "orelse", "finalbody"):
+                    sub = getattr(x, fld, None)
+                    if isinstance(sub, list) and sub and isinstance(sub[0], ast.stmt) and not isinstance(x, (ast.FunctionDef, ast.AsyncFunctionDef, ast.ClassDef)):
+                        all_lists.append(sub)
+                if isinstance(x, ast.Try):
+                    all_lists += [h.body for h in x.handlers]
+            for body_list, idx, st in [(bl, i_, s_) for bl in all_lists for i_, s_ in enumerate(bl)]:
                 if not (isinstance(st, ast.Assign) and len(st.targets) == 1):
                     continue
                 tg, val = st.targets[0], st.value
@@ -447,7 +455,9 @@ def coalesce_copies(tree: ast.Module) -> int:
                 if not ok:
                     continue
                 ren = {x.id: a.id for a, x in pairs}
-                del fn.body[idx]
+                del body_list[idx]
+                if not body_list:
+                    body_list.append(ast.Pass())
                 for n in ast.walk(fn):
                     if isinstance(n, ast.Name) and n.id in ren:
                         n.id = ren[n.id]
@@ -701,7 +711,7 @@ def _suppress_to_try(stmts: List[ast.stmt]) -> int:
 
 
 def desugar(tree: ast.Module) -> int:
-    total = 0
+    total = unroll_any_all(tree)
     for fn in ast.walk(tree):
         if isinstance(fn, (ast.FunctionDef, ast.AsyncFunctionDef)):
             total += _hoist_walrus_in_list(fn.body)
@@ -881,5 +891,70 @@ def propagate_param_copies(tree: ast.Module) -> int:
             for x in ast.walk(fn):
                 if isinstance(x, ast.Name) and x.id == a:
                     x.id = p
+            total += 1
+    return total
+
+
+
+def unroll_any_all(tree: ast.Module) -> int:
+    """any(C(x) for x in (a, b))  ->  C(a) or C(b)      all(...)  ->  ... and ...   (literal sequences only)"""
+    n = 0
+
+    class T(ast.NodeTransformer):
+        def visit_Call(self, c):
+            nonlocal n
+            self.generic_visit(c)
+            if isinstance(c.func, ast.Name) and c.func.id in ("any", "all") and len(c.args) == 1 and not c.keywords and isinstance(c.args[0], (ast.GeneratorExp, ast.ListComp)):
+                comp = c.args[0]
+                if len(comp.generators) == 1 and not comp.generators[0].ifs and isinstance(comp.generators[0].target, ast.Name) and isinstance(comp.generators[0].iter, (ast.Tuple, ast.List)) \
+                        and 1 <= len(comp.generators[0].iter.elts) <= 6 and not any(isinstance(e, ast.Starred) for e in comp.generators[0].iter.elts):
+                    name = comp.generators[0].target.id
+                    vals = [_SubstNames({name: e}).visit(copy.deepcopy(comp.elt)) for e in comp.generators[0].iter.elts]
+                    n += 1
+                    new = vals[0] if len(vals) == 1 else ast.BoolOp(op=ast.Or() if c.func.id == "any" else ast.And(), values=vals)
+                    return ast.copy_location(new, c)
+            return c
+
+    for fn in ast.walk(tree):
+        if isinstance(fn, (ast.FunctionDef, ast.AsyncFunctionDef)):
+            T().visit(fn)
+            ast.fix_missing_locations(fn)
+    return n
+
+
+def apply_local_partials(tree: ast.Module) -> int:
+    """p = partial(F, a, k=v) ... p(x, y)   ->   F(a, x, y, k=v)   (p defined once, only ever called)"""
+    total = 0
+    for fn in ast.walk(tree):
+        if not isinstance(fn, (ast.FunctionDef, ast.AsyncFunctionDef)):
+            continue
+        loads, stores, banned = _name_counts(fn)
+        for st in list(_walk_own(fn)):
+            if not (isinstance(st, ast.Assign) and len(st.targets) == 1 and isinstance(st.targets[0], ast.Name) and isinstance(st.value, ast.Call)):
+                continue
+            c = st.value
+            is_partial = (isinstance(c.func, ast.Name) and c.func.id == "partial") or (isinstance(c.func, ast.Attribute) and c.func.attr == "partial")
+            if not is_partial or not c.args or not isinstance(c.args[0], (ast.Name, ast.Attribute)) or any(isinstance(a, ast.Starred) for a in c.args) or any(k.arg is None for k in c.keywords):
+                continue
+            p = st.targets[0].id
+            if stores.get(p, 0) != 1:
+                continue
+            uses = [x for x in ast.walk(fn) if isinstance(x, ast.Name) and x.id == p and isinstance(x.ctx, ast.Load)]
+            calls = [x for x in ast.walk(fn) if isinstance(x, ast.Call) and isinstance(x.func, ast.Name) and x.func.id == p]
+            if not calls or len(calls) != len(uses):
+                continue
+            for call in calls:
+                call.func = copy.deepcopy(c.args[0])
+                call.args = [copy.deepcopy(a) for a in c.args[1:]] + call.args
+                given = {k.arg for k in call.keywords}
+                call.keywords = call.keywords + [copy.deepcopy(k) for k in c.keywords if k.arg not in given]
+            # drop the definition
+            for parent_ in ast.walk(fn):
+                for fld in ("body", "orelse", "finalbody"):
+                    lst = getattr(parent_, fld, None)
+                    if isinstance(lst, list) and st in lst:
+                        lst.remove(st)
+                        if not lst:
+                            lst.append(ast.Pass())
             total += 1
     return total
